@@ -1659,7 +1659,8 @@ class Architecture(Instance):
         return self._scope.lookup_name(self)
 
     def entity_name(self):
-        return self._scope.lookup_name(self._entity)
+        # the entity declaration and instantiations print the declared name
+        return self._entity.name()
 
     def write_declarations(self):
         return self._scope.format_declarations()
